@@ -17,6 +17,9 @@ func dispatchMore(cmd string, args []string) bool {
 	case "gen2":
 		cmdGen2(args)
 		return true
+	case "sessions":
+		cmdSessions(args)
+		return true
 	case "campaign":
 		cmdCampaign(args)
 		return true
